@@ -110,8 +110,10 @@ func main() {
 				rep.Trusted = append(rep.Trusted, name)
 				continue
 			}
-			enc := p.Verify(fn, fc)
 			rep.Functions = append(rep.Functions, name)
+			modes := modesOf(fc)
+			for mi, mode := range modes {
+			enc := p.Verify(fn, fc, mode, mi == 0, len(modes) > 1)
 			for _, e := range enc.errs {
 				rep.Errors = append(rep.Errors, name+": "+e)
 			}
@@ -138,6 +140,7 @@ func main() {
 				}
 			}
 			obls = append(obls, enc.obls...)
+			}
 		}
 		for _, lr := range p.lemmas {
 			if *prop != "" && !contains(lr.l.Props, *prop) {
